@@ -167,6 +167,12 @@ def gen_value(rng, kind, depth, big: bool):
     if k == "seq_struct":
         items = [gen_struct(rng, kind[1], depth + 1, big and rng.random() < 0.5, at_least_one=True) for _ in range(rng.randint(1, 4))]
         items = [v for v in items if not encodes_empty(v, kind[1])]
+        if items and rng.random() < 0.3:
+            # all-unset items (zero bytes between two separators) BEFORE a non-empty item: the separators keep their place. A
+            # trailing all-unset item is not representable (nothing follows its separator) and stays excluded, see 8.3
+            pos = rng.randrange(len(items))
+            for _ in range(rng.randint(1, 2)):
+                items.insert(pos, {})
         return items or None
     if k == "seq_int":
         return [rng.choice([0, 1, 5, 6, 255, 256, 257, 65535, rng.getrandbits(16)]) for _ in range(rng.randint(1, 6))]
